@@ -729,7 +729,7 @@ Dim(k) ==
       \* carrier, midnight case, what is wrong with the request
       [] Family = "leak_midnight" -> V(<<2, Len(MidnightCases), 3>>, k)
       \* method, carrier, folding, body, tampering after signing
-      [] Family = "foldmethod" -> V(<<Len(FoldMethods), 2, 2, 2, 2>>, k)
+      [] Family = "foldmethod" -> V(<<Len(FoldMethods), 2, 2, 2, 2, 3>>, k)
       \* number of filler parameters, which parameter is repeated, where the two occurrences sit
       [] Family = "manyparams" -> V(<<Len(ManyCounts), 3, 3>>, k)
       \* carrier, X-Amz-Expires value, where it travels, age of the request
@@ -939,7 +939,8 @@ BundleOf ==
             \* every method, and without folding every body byte is covered
             LET b    == Bundle0(CarrierOf(idx[2]))
                 body == IF idx[4] = 1 THEN B("a=1&b=2") ELSE <<>>
-                L1   == [b.L EXCEPT !.method = FoldMethods[idx[1]], !.body = body, !.query = B("c=3"), !.hdrs = @ \o <<FormHdr>>]
+                L1   == [b.L EXCEPT !.method = FoldMethods[idx[1]], !.body = body, !.query = B("c=3"), !.hdrs = @ \o <<FormHdr>>,
+                                    !.version = <<"HTTP/1.1", "HTTP/1.0", "HTTP/2.0">>[idx[6]]]
             IN [b EXCEPT !.L = [L1 EXCEPT !.signed = SignAll(L1)], !.cfg.fold = Bool(idx[3]),
                          !.post = IF idx[5] = 2 THEN << [k |-> "body", v |-> B("a=1&b=3")] >> ELSE <<>>]
       [] Family = "manyparams" ->
